@@ -251,6 +251,39 @@ def check(case):
             fail(f"{name} at the restored reference vs 0", f"|{name}| = {_maxabs(v):.3e} after set_reference_strains(new); set_reference_strains(old)",
                  {"value": _maxabs(v), "tol": TOL_ZERO})
 
+    # ---------------- a reference whose nodal quaternions are non-unit with norms differing from node to node (seeded C10-e)
+    Qn = Q.copy()
+    for k in range(rod.nnodes_p):
+        d = rod.nodalDOF_p[k]
+        Qn[d] *= (0.5, 2.0, 1.3)[k % 3]
+    with quiet():
+        rod.set_reference_strains(Qn.copy())
+    vals = ev.inv(Qn)
+    vals.update({"h(q,0)": ev.h(Qn)["h(q,0)"]})
+    for name, v in vals.items():
+        if name == "c(q,la_c)":
+            continue
+        e = _maxabs(v)
+        stats["max_ref_residual"] = max(stats["max_ref_residual"], e)
+        if not e <= TOL_ZERO:
+            fail(f"{name} at a reference with non-unit nodal quaternions vs 0", f"|{name}| = {e:.3e} at the reference with nodal quaternions scaled by 0.5/2/1.3",
+                 {"value": e, "tol": TOL_ZERO})
+    # ---------------- a fresh rod built in a pre-deformed initial configuration q0 != Q: Q stays the stress-free one (seeded C10-f)
+    rod2, system2, Qb = R.build(case, seed, q0=bases[1][1])
+    ev2 = _Ev(rod2, system2, seed)
+    vals = ev2.inv(Qb)
+    vals.update({"h(q,0)": ev2.h(Qb)["h(q,0)"]})
+    ev.n += ev2.n
+    for name, v in vals.items():
+        if name == "c(q,la_c)":
+            continue
+        e = _maxabs(v)
+        stats["max_ref_residual"] = max(stats["max_ref_residual"], e)
+        if not e <= TOL_ZERO:
+            fail(f"{name} at the reference Q of a rod built with q0 != Q vs 0", f"|{name}| = {e:.3e} at Q for a rod constructed in a deformed initial configuration",
+                 {"value": e, "tol": TOL_ZERO})
+    stats["E_pot_at_deformed_q0"] = float(system2.E_pot(0.0, np.asarray(system2.q0, float)))
+
     return {
         "fails": list(fails.values()),
         "nontrivial": bool(strained and force_nonzero),
